@@ -1195,11 +1195,13 @@ def transpile(src: str) -> str:
     return Emitter(items).module()
 
 
-def load_checker(path: str = '/repo/rust/src/lib.rs') -> Any:
+def load_checker(path: str = '') -> Any:
     """transpile lib.rs as it is on disk now and return the generated module"""
     import types
 
-    src = open(path).read()
+    from .paths import REPO
+
+    src = open(path or f'{REPO}/rust/src/lib.rs').read()
     code = transpile(src)
     mod = types.ModuleType('rs_checker')
     mod.__dict__['__source__'] = code
